@@ -3,8 +3,10 @@ package types
 import (
 	"fmt"
 	"go/token"
+	"io"
 	"iter"
 	"maps"
+	"os"
 	"path/filepath"
 	"slices"
 
@@ -85,7 +87,7 @@ func Load(patterns []string, options ...func(c *packages.Config)) (*Universe, er
 				localPkgPaths[p.PkgPath] = directPkgPaths[p.PkgPath]
 
 				if pkgDir := p.Dir; pkgDir != "" {
-					x, _ := dirhash.HashDir(pkgDir, "", dirhash.Hash1)
+					x, _ := hashDir(pkgDir)
 					u.sumFile.Data[p.PkgPath] = x
 
 					if mod := pkg.Module(); mod != nil {
@@ -119,6 +121,19 @@ func Load(patterns []string, options ...func(c *packages.Config)) (*Universe, er
 	u.localPkgPaths = localPkgPaths
 
 	return u, nil
+}
+
+// hashDir is dirhash.HashDir without the sum file itself: for a package in the module root gengo.sum lies
+// inside the hashed directory, and a hash that covers the file recording it changes with every run
+func hashDir(dir string) (string, error) {
+	files, err := dirhash.DirFiles(dir, "")
+	if err != nil {
+		return "", err
+	}
+	files = slices.DeleteFunc(files, func(name string) bool { return name == sumfile.Filename })
+	return dirhash.Hash1(files, func(name string) (io.ReadCloser, error) {
+		return os.Open(filepath.Join(dir, name))
+	})
 }
 
 type Universe struct {
